@@ -139,6 +139,11 @@ class Meta:
         reg_names = ["AB", "BD", "ABD", "XY", "US", "XS", "AD", "YU"]
         for k in range(len(reg_names)):
             schemes.append(lambda i, n, k=k: reg_names[(i + k) % len(reg_names)] if len(labels) <= len(reg_names) else "%s%d" % (reg_names[(i + k) % len(reg_names)], i))
+        # names that read like a number in another assembler's notation (hex digits + H, digits + trailing letter, O / Q / B suffixes)
+        for words in (["EACH", "BEACH", "FADEH", "ACEH", "DEADH", "BADH", "CAFEH", "FACEH", "ABEH", "DADH", "FEEDH", "BEEFH", "DEAFH", "ADDH", "EBBH"],
+                      ["B1010B", "O17O", "Q17Q", "D99D", "E1", "A0", "F00", "BAD", "ADD", "DAD", "BEE", "C0DE", "FEED", "ACE", "D0"]):
+            if len(labels) <= len(words):
+                schemes.append(lambda i, n, words=words: words[i])
         for si, sch in enumerate(schemes):
             m = {n: sch(i, n) for i, n in enumerate(labels)}
             new = []
